@@ -435,8 +435,9 @@ class CallMixin:
             fn.local_containers = getattr(parent, "local_containers", ())
             fn.ghost = getattr(parent, "ghost", None)
             fn._ghost_hits = getattr(parent, "_ghost_hits", set())
-            fn.loops = parent.loops
             fn._loop_ids = self.loop_ordinals(parent) if (parent.mod or getattr(parent, "node", None)) else {}
+            fn.loops = parent.loops          # (after loop_ordinals: ordinal keys may have been re-anchored)
+            fn._loop_headers = getattr(parent, "_loop_headers", {})
             fn.local_types = parent.local_types
         return self.inline(p, fn, fnode, cf.mod, args, kwargs, node, cls=cf.cls, closure=cf)
 
